@@ -15,7 +15,7 @@ Lemma inv_step s x s' : Inv s -> step s x = Some s' -> Inv s'.
 Proof.
   intros HI Hs. unfold Sub.step in Hs.
   destruct (Sub.exists_b reqs (actor_of x)) eqn:He; [|discriminate].
-  destruct x as [i|i|i|i w|i]; cbn [actor_of] in He.
+  destruct x as [i|i|i|i w|i|i v]; cbn [actor_of] in He; [| | | | |discriminate].
   - destruct (a_pc (act s i)) eqn:Hpc.
     + eapply inv_tau_start; eauto.
     + eapply inv_tau_y1; eauto.
@@ -87,8 +87,8 @@ Proof.
     + pose proof (inv_step _ _ _ HI Hs) as HI1.
       pose proof (c_out_panic _ _ HI1 (actor_of x)) as P.
       unfold obs_of in Hin.
-      destruct (a_out (act s (actor_of x))) as [[k d f|e|]|];
-        destruct (a_out (act s1 (actor_of x))) as [[k' d' f'|e'|]|]; cbn in Hin;
+      destruct (a_out (act s (actor_of x))) as [[k d f|e| |f]|];
+        destruct (a_out (act s1 (actor_of x))) as [[k' d' f'|e'| |f']|]; cbn in Hin;
         try contradiction; try (destruct Hin as [Hin|[]]; inversion Hin; subst; congruence).
     + eapply IH; [|exact Hr2|exact Hin]. eapply inv_step; eauto.
 Qed.
@@ -169,6 +169,56 @@ Proof.
     pose proof (c_noref _ _ HI i Hr) as X. rewrite Hpc in X. discriminate.
 Qed.
 
+(* ---- panics: where an [OCrash] comes from ---- *)
+Lemma crash_origin_l s i f :
+  reach s -> a_out (act s i) = Some (OCrash f) ->
+  (f = None /\ a_ans (act s i) = Some APanic) \/
+  (exists j, f = Some j /\ j <> i /\ a_ref (act s i) = Some j /\ a_ans (act s j) = Some APanic /\
+             a_out (act s j) = Some (OCrash None) /\
+             rkey (rq i) = rkey (rq j) /\ elig (rq i) = true /\ elig (rq j) = true).
+Proof.
+  intros HR Ho. pose proof (reach_inv _ HR) as HI. destruct f as [j|].
+  - right. exists j. destruct (c_out_crash_sh _ _ HI _ _ Ho) as (N & Hr & Hoj & _).
+    destruct (shared_key_query_l _ _ _ HR Hr N) as (? & ? & ?).
+    pose proof (c_out_crash _ _ HI _ Hoj). repeat split; auto.
+  - left. split; [reflexivity|]. apply (c_out_crash _ _ HI _ Ho).
+Qed.
+
+(* ---- the registry: a key is registered only while its leader is still inside loadByContext ---- *)
+Lemma registry_clean_l s k j :
+  reach s -> tbl s k = Some j ->
+  exists_b j = true /\ a_ref (act s j) = Some j /\ rkey (rq j) = k /\ a_pc (act s j) <> PDone /\
+  it_loaded (itm s j) = false.
+Proof.
+  intros HR Ht. pose proof (reach_inv _ HR) as HI.
+  destruct (c_tbl _ _ HI _ _ Ht) as (Hr & Hp & Hk).
+  assert (He : exists_b j = true).
+  { destruct (Sub.exists_b reqs j) eqn:E; [reflexivity|]. rewrite (c_absent _ _ HI j E) in Hr. discriminate. }
+  repeat split; auto.
+  - intro X. rewrite X in Hp. discriminate.
+  - apply (c_lead_open _ _ HI j Hr). destruct (a_pc (act s j)); cbn in *; congruence.
+Qed.
+
+Lemma quiescent_registry_empty_l s :
+  reach s -> (forall i, exists_b i = true -> a_pc (act s i) = PDone) -> forall k, tbl s k = None.
+Proof.
+  intros HR Hall k. destruct (tbl s k) as [j|] eqn:Ht; [|reflexivity].
+  destruct (registry_clean_l _ _ _ HR Ht) as (He & _ & _ & Hn & _). exfalso. apply Hn, Hall, He.
+Qed.
+
+(* a leader that has left (in whatever way: returned, failed, panicked) has released its item *)
+Lemma leader_gone_released_l s j :
+  reach s -> a_ref (act s j) = Some j -> a_pc (act s j) = PDone ->
+  it_loaded (itm s j) = true /\ forall k, tbl s k <> Some j.
+Proof.
+  intros HR Hr Hp. pose proof (reach_inv _ HR) as HI. split.
+  - apply (c_lead_done _ _ HI j Hr Hp).
+  - intros k Ht. destruct (registry_clean_l _ _ _ HR Ht) as (_ & _ & _ & Hn & _). contradiction.
+Qed.
+
+Definition is_panic (x : action) : bool :=
+  match x with Ans _ APanic | Wr _ WPanic => true | _ => false end.
+
 Lemma step_ans_enabled s i :
   exists_b i = true -> a_pc (act s i) = PLoad -> step s (Ans i AOk) <> None.
 Proof.
@@ -181,20 +231,20 @@ Proof.
   rewrite (c_absent _ _ HI i He) in Hp. cbn in Hp. congruence.
 Qed.
 
-Lemma progress_l s :
+Lemma progress_benign_l s :
   reach s -> (exists i, exists_b i = true /\ a_pc (act s i) <> PDone) ->
-  exists x, is_cancel x = false /\ step s x <> None.
+  exists x, is_cancel x = false /\ is_panic x = false /\ step s x <> None.
 Proof.
   intros HR (i & He & Hnd). pose proof (reach_inv _ HR) as HI.
   destruct (a_pc (act s i)) eqn:Hpc; try congruence;
-    try (exists (Tau i); split; [reflexivity|apply step_tau_enabled; auto; rewrite Hpc; exact I]).
+    try (exists (Tau i); split; [reflexivity|split; [reflexivity|apply step_tau_enabled; auto; rewrite Hpc; exact I]]).
   - (* PWait *)
     destruct (a_ref (act s i)) as [j|] eqn:Hr.
     2:{ pose proof (c_noref _ _ HI i Hr) as X. rewrite Hpc in X. discriminate. }
     assert (N : j <> i).
     { intro; subst. destruct (c_lead _ _ HI i Hr) as [_ L]. rewrite Hpc in L. discriminate. }
     destruct (it_loaded (itm s j)) eqn:Hd.
-    + exists (WakeDone i). split; [reflexivity|].
+    + exists (WakeDone i). split; [reflexivity|]. split; [reflexivity|].
       unfold Sub.step. cbn [actor_of]. rewrite He. unfold wake_done. rewrite Hpc, Hr, Hd.
       destruct (it_abandoned (itm s j)); [discriminate|].
       destruct (it_err (itm s j)); [discriminate|]. destruct (it_resp (itm s j)); discriminate.
@@ -205,9 +255,16 @@ Proof.
       assert (Hje : exists_b j = true).
       { apply (exists_of_moved s j); auto. intro X. rewrite X in Lp. discriminate. }
       destruct (a_pc (act s j)) eqn:Hpj; try discriminate; try congruence;
-        try (exists (Tau j); split; [reflexivity|apply step_tau_enabled; auto; rewrite Hpj; exact I]).
-      exists (Ans j AOk). split; [reflexivity|apply (step_ans_enabled s j); auto].
-  - exists (Ans i AOk). split; [reflexivity|apply (step_ans_enabled s i); auto].
+        try (exists (Tau j); split; [reflexivity|split; [reflexivity|apply step_tau_enabled; auto; rewrite Hpj; exact I]]).
+      exists (Ans j AOk). split; [reflexivity|split; [reflexivity|apply (step_ans_enabled s j); auto]].
+  - exists (Ans i AOk). split; [reflexivity|split; [reflexivity|apply (step_ans_enabled s i); auto]].
+Qed.
+
+Lemma progress_l s :
+  reach s -> (exists i, exists_b i = true /\ a_pc (act s i) <> PDone) ->
+  exists x, is_cancel x = false /\ step s x <> None.
+Proof.
+  intros HR H. destruct (progress_benign_l s HR H) as (x & ? & _ & ?). exists x. auto.
 Qed.
 
 Lemma returned_iff_outcome s i :
